@@ -7,11 +7,13 @@ CONSTANTS
   Shapes <- S_wmL_wmS
   Ctl <- C_close_ping
   Closer = FALSE
+  Rd <- R_none
   ControlTakesLock = TRUE
   FlushAtomic = TRUE
   LatchChecked = FALSE
   CloseLatches = TRUE
   TimeoutReleases = FALSE
+  HandlerControlPath = TRUE
   Fifo = TRUE
   OnlyBad = TRUE
   Family = "atk_nocheck"
